@@ -138,9 +138,9 @@ def Inv (pc : PC) (s : St) : Prop :=
   | .dS r => regOK r s ∧ s.msgSize = msgLen ∧ s.intr = .self ∧ s.alive = true ∧ s.msgPtr = .live ∧
       s.dispInt = true ∧ s.dispTerm = true ∧ 1 ≤ s.stop
   | .dH => s.handler = 0 ∧ s.msgSize = msgLen ∧ s.intr = .self ∧ s.alive = true ∧ s.msgPtr = .live ∧
-      s.dispInt = true ∧ s.dispTerm = true ∧ 1 ≤ s.stop
+      s.dispInt = true ∧ s.dispTerm = true
   | .dZ => s.handler = 0 ∧ s.msgSize = 0 ∧ s.intr = .self ∧ s.alive = true ∧
-      s.dispInt = true ∧ s.dispTerm = true ∧ 1 ≤ s.stop
+      s.dispInt = true ∧ s.dispTerm = true
 
 theorem inv_init : Inv .idle init := by
   simp [Inv, init]
@@ -276,6 +276,25 @@ theorem inv_run (L : Layout) (md : Mode) (evs : List Ev) (pc pc' : PC) (s : St) 
         simp only [hn] at hp
         rw [exec_step md s m h0] at hh ⊢
         exact ih pc1 _ (inv_step L pc pc1 s m hi hn) hp hh
+
+/-! ### `trace` (what the line driver prints) versus `run` / `exec` (what the theorems speak about) -/
+
+theorem trace_append (md : Mode) (s : St) (a b : List Ev) :
+    trace md s (a ++ b) = trace md s a ++ trace md (run md s a).1 b := by
+  induction a generalizing s with
+  | nil => simp [trace, run]
+  | cons e r ih => simp [trace, run_cons, ih]
+
+theorem trace_obs (md : Mode) (s : St) (evs : List Ev) :
+    ((trace md s evs).map (fun t => t.2.1)).flatten = (run md s evs).2 := by
+  induction evs generalizing s with
+  | nil => simp [trace, run]
+  | cons e r ih => simp [trace, run_cons, ih]
+
+theorem trace_length (md : Mode) (s : St) (evs : List Ev) : (trace md s evs).length = evs.length := by
+  induction evs generalizing s with
+  | nil => rfl
+  | cons e r ih => simp [trace, ih]
 
 theorem run_split (md : Mode) (s : St) (pre : List Ev) (e : Ev) (post : List Ev) :
     (run md s (pre ++ e :: post)).1 = (run md (exec md (run md s pre).1 e).1 post).1 := by
@@ -523,6 +542,68 @@ theorem no_exit_run (md : Mode) (evs : List Ev) (s : St) (hn : ∀ e ∈ evs, Ne
             omega
           · show s.halted ≠ some .exit1
             simp [hh]
+
+/-- events that do not store to `stop_` -/
+def StopNeutral : Ev → Bool
+  | .step .cStop0 => false
+  | .step .dStop1 => false
+  | _ => true
+
+/-- over events that do not store to `stop_`, a still running process has counted every delivered signal -/
+theorem stop_run (md : Mode) (evs : List Ev) (s : St) (hn : ∀ e ∈ evs, StopNeutral e = true)
+    (hh : (run md s evs).1.halted = none) : (run md s evs).1.stop = s.stop + sigCount evs := by
+  induction evs generalizing s with
+  | nil => simp [run, sigCount]
+  | cons e r ih =>
+    have hnr : ∀ e ∈ r, StopNeutral e = true := fun e he => hn e (List.mem_cons_of_mem _ he)
+    have hne : StopNeutral e = true := hn e (List.mem_cons_self)
+    rw [run_cons] at hh ⊢
+    have h1 : (exec md s e).1.halted = none := run_halted_of md _ r hh
+    have h0 : s.halted = none := exec_halted_of md s e h1
+    have := ih (exec md s e).1 hnr hh
+    cases e with
+    | step m =>
+      rw [exec_step md s m h0] at this h1 hh ⊢
+      have : (applyMicro s m).stop = s.stop := by cases m <;> simp_all [StopNeutral, applyMicro]
+      simp_all [sigCount]
+    | sig g =>
+      rw [exec_sig md s g h0] at this h1 hh ⊢
+      cases hd : s.disp g with
+      | false => rw [deliver_killed md s g hd] at h1; simp at h1
+      | true =>
+        by_cases hs : s.stop ≤ 1
+        · rw [deliver_ok md s g hd hs] at this ⊢
+          simp only [sigCount] at this ⊢
+          omega
+        · have := (deliver_exit md s g hd (by omega)).1
+          rw [this] at h1; simp at h1
+
+/-- a layout whose destructor does not store to `stop_`: no well-formed step sequence contains that store -/
+theorem keeps_no_dStop1 (L : Layout) (hD : L.dtorKeepsStop = true) (evs : List Ev) (pc pc' : PC)
+    (hp : pcRun L pc evs = some pc') : ∀ e ∈ evs, e ≠ .step .dStop1 := by
+  induction evs generalizing pc with
+  | nil => simp
+  | cons e r ih =>
+    cases e with
+    | sig g =>
+      simp only [pcRun] at hp
+      intro e he
+      rcases List.mem_cons.mp he with rfl | h
+      · simp
+      · exact ih pc hp e h
+    | step m =>
+      simp only [pcRun] at hp
+      cases hn : pcNext L pc m with
+      | none => simp [hn] at hp
+      | some pc1 =>
+        simp only [hn] at hp
+        intro e he
+        rcases List.mem_cons.mp he with rfl | h
+        · intro heq
+          injection heq with hm
+          subst hm
+          cases pc <;> simp_all [pcNext]
+        · exact ih pc1 hp e h
 
 theorem stop_le_two (md : Mode) (evs : List Ev) (s : St) (h2 : s.stop ≤ 2) : (run md s evs).1.stop ≤ 2 := by
   induction evs generalizing s with
